@@ -982,19 +982,32 @@ func ruleNumShape(c *Ctx) {
 		if !ok {
 			return true
 		}
+		// nested form `if MUST { if short || notdigit { return 0,0 } }` or merged `if MUST && (short || notdigit) { return 0,0 }`
+		var innerCond ast.Expr
 		nc := classifyNumAtom(p, normNot(Atom{E: ifs.Cond}))
-		if nc.kind != "flagclear" || nc.flag != "isMustHaveDigitNext" || nc.holds {
+		if nc.kind == "flagclear" && nc.flag == "isMustHaveDigitNext" && !nc.holds {
+			if len(ifs.Body.List) == 1 {
+				if inner, _ := ifs.Body.List[0].(*ast.IfStmt); inner != nil && inner.Else == nil && len(inner.Body.List) == 1 && isRejectReturn(p, inner.Body.List[0]) {
+					innerCond = inner.Cond
+				}
+			}
+		} else if cjs := conjuncts(ifs.Cond); len(cjs) == 2 && ifs.Else == nil {
+			n1 := classifyNumAtom(p, normNot(Atom{E: cjs[0]}))
+			if n1.kind == "flagclear" && n1.flag == "isMustHaveDigitNext" && !n1.holds {
+				nc = n1
+				if len(ifs.Body.List) == 1 && isRejectReturn(p, ifs.Body.List[0]) {
+					innerCond = ast.Unparen(cjs[1])
+				}
+			} else {
+				return true
+			}
+		} else {
 			return true
 		}
 		found++
-		// body: if (short || notdigit) { return 0,0 }
 		okShape := false
-		var inner *ast.IfStmt
-		if len(ifs.Body.List) == 1 {
-			inner, _ = ifs.Body.List[0].(*ast.IfStmt)
-		}
-		if inner != nil && inner.Else == nil && len(inner.Body.List) == 1 && isRejectReturn(p, inner.Body.List[0]) {
-			ds := disjuncts(inner.Cond)
+		if innerCond != nil {
+			ds := disjuncts(innerCond)
 			var hasLen, hasDigit bool
 			var nextIdx ast.Expr
 			for _, d := range ds {
@@ -1114,6 +1127,8 @@ func leadingZeroCondOK(p *GoProg, m *numModel, cond ast.Expr, E int64, fam strin
 		switch {
 		case nc.kind == "bytecmp" && nc.idx == E && nc.ch == '0' && nc.holds:
 		case nc.kind == "bytecmp" && nc.idx == 0 && nc.ch == '-' && nc.holds && E == 1:
+		case nc.kind == "flagclear" && nc.flag == "isMinusFlag" && ((nc.holds && E == 0) || (!nc.holds && E == 1)):
+			// the sign the check is meant for, written as a conjunct instead of an enclosing if
 		case nc.kind == "cmp" && (nc.op == token.GTR || nc.op == token.GEQ):
 			// pos > K must hold for every literal with E+2 or more characters
 			min := nc.k + 1
